@@ -6,6 +6,7 @@ package main
 // and paired by position; the TLA+ trace specification judges them.
 
 import (
+	"bytes"
 	"context"
 	"encoding/hex"
 	"encoding/json"
@@ -755,6 +756,12 @@ func runArtela(p *gen.Program, o runOpts) (out runOut) {
 		}
 		raw, _ := json.Marshal(sl.StructLogs())
 		out.outs = append(out.outs, tracerOut("structLogger", raw, nil))
+		// the two public renderings of the struct logs, which (unlike the JSON of the log entries) include the storage snapshots
+		res, rerr := sl.GetResult()
+		out.outs = append(out.outs, tracerOut("structLogger.result", res, rerr))
+		var txt bytes.Buffer
+		alogger.WriteTrace(&txt, sl.StructLogs())
+		out.outs = append(out.outs, tracerOut("structLogger.text", txt.Bytes(), nil))
 		out.outs = append(out.outs, tracerOut("accessList", canonAccessList(al.AccessList()), nil))
 	}
 	return
@@ -865,6 +872,12 @@ func runRef(p *gen.Program, o runOpts) (out runOut) {
 		}
 		raw, _ := json.Marshal(sl.StructLogs())
 		out.outs = append(out.outs, tracerOut("structLogger", raw, nil))
+		// the two public renderings of the struct logs, which (unlike the JSON of the log entries) include the storage snapshots
+		res, rerr := sl.GetResult()
+		out.outs = append(out.outs, tracerOut("structLogger.result", res, rerr))
+		var txt bytes.Buffer
+		rlogger.WriteTrace(&txt, sl.StructLogs())
+		out.outs = append(out.outs, tracerOut("structLogger.text", txt.Bytes(), nil))
 		out.outs = append(out.outs, tracerOut("accessList", canonAccessList(al.AccessList()), nil))
 	}
 	return
